@@ -358,6 +358,80 @@ theorem cached_verdict_stable (g : Reg) (q : Quant) (a : ArrVal) (cs : List Call
             cases e.isValueError <;> simp only [Bool.false_eq_true, ↓reduceIte] <;> rw [ih _ h2]
   exact main cs _ (Or.inl rfl)
 
+/-- calls on an Array leave it the same Array (only the memo changes) -/
+theorem afterCalls_array (g : Reg) (q : Quant) (a : ArrVal) (cs : List Call) :
+    ∀ k, ∃ k', afterCalls g q (.array a k) cs = .array a k' := by
+  induction cs with
+  | nil => intro k; exact ⟨k, rfl⟩
+  | cons c cs ih =>
+    intro k
+    cases c with
+    | check => simp only [afterCalls, call, checkValidity]; exact ih _
+    | isValid =>
+      cases q with
+      | derived => simp only [afterCalls, call, isValid]; exact ih _
+      | simple c' u t =>
+        simp only [afterCalls, call, isValid, checkValidity]
+        cases (validateValues g (.simple c' u t) a k).2 with
+        | ok _ => exact ih _
+        | error e => cases he : e.isValueError <;> simp only [he, Bool.false_eq_true, ↓reduceIte] <;> exact ih _
+
+/-- **a copy does not depend on what was asked of its source**: `CreateCopy` after any sequence of
+validity calls on the source (any memoised verdict) gives the same object as `CreateCopy` on the
+untouched source -/
+theorem copy_independent_of_source_history (g : Reg) (q : Quant) (a : ArrVal) (cs : List Call)
+    (unit cat : Option Sym) :
+    ∃ k', afterCalls g q (.array a Cache.fresh) cs = .array a k'
+      ∧ createCopy g q a k' unit cat = createCopy g q a Cache.fresh unit cat := by
+  obtain ⟨k', hk⟩ := afterCalls_array g q a cs Cache.fresh
+  exact ⟨k', hk, by cases q <;> rfl⟩
+
+/-- **a copy is judged on its own amounts and its own category**: it holds the source's values
+written in the requested unit, carries no memo, and every sequence of calls on it answers as a fresh
+computation for the copy's quantity (so with the limits of the copy's category) -/
+theorem copy_judged_on_its_own {g : Reg} {q q' : Quant} {a : ArrVal} {k : Cache} {unit cat : Option Sym}
+    {o' : Obj} (h : createCopy g q a k unit cat = .ok (q', o')) :
+    ∃ c u t a', q = .simple c u t ∧ valuesIn g c.name u unit a = .ok a' ∧ o' = .array a' Cache.fresh
+      ∧ ∀ cs, calls g q' o' cs = cs.map (uncached g q' a') := by
+  cases q with
+  | derived => simp [createCopy] at h
+  | simple c u t =>
+    unfold createCopy at h
+    simp only at h
+    cases hv : valuesIn g c.name u unit a with
+    | error e => rw [hv] at h; cases h
+    | ok a' =>
+      rw [hv] at h
+      simp only at h
+      have fin : ∀ q'' : Quant, (Except.ok (q'', Obj.array a' Cache.fresh) : Except ErrKind (Quant × Obj))
+          = .ok (q', o') →
+          ∃ c0 u0 t0 a0, Quant.simple c u t = .simple c0 u0 t0 ∧ valuesIn g c0.name u0 unit a = .ok a0
+            ∧ o' = .array a0 Cache.fresh ∧ ∀ cs, calls g q' o' cs = cs.map (uncached g q' a0) := by
+        intro q'' he
+        injection he with he
+        injection he with h1 h2
+        subst h1 h2
+        exact ⟨c, u, t, a', rfl, hv, rfl, fun cs => cached_verdict_stable g _ a' cs⟩
+      cases unit with
+      | none =>
+        cases cat with
+        | none => exact fin _ h
+        | some c' => cases h
+      | some u' =>
+        cases cat with
+        | some c' =>
+          simp only at h
+          cases hm : mkQuant g c' u' with
+          | error e => rw [hm] at h; cases h
+          | ok q'' => rw [hm] at h; exact fin _ h
+        | none =>
+          simp only at h
+          split at h
+          · cases h
+          · cases hm : mkQuant g c.name u' with
+            | error e => rw [hm] at h; cases h
+            | ok q'' => rw [hm] at h; exact fin _ h
+
 /-- `IsValid` answers True exactly when `CheckValidity` raises nothing -/
 theorem isValid_iff_check (g : Reg) {c : CatInfo} (unit : Sym) (this : UnitRow) (o : Obj) :
     (isValid g (.simple c unit this) o).2 = .ok true ↔
